@@ -526,6 +526,8 @@ type result struct {
 	// earlierHung: an earlier run of the case (history kind, or "definition run") did not end by itself, was
 	// cancelled and did not return within the bound either
 	earlierHung string
+	// ended: the goroutine that made the call is over (the call returned, or the harness ended it from inside tick())
+	ended bool
 }
 
 const runawayLimit = 50
@@ -714,6 +716,7 @@ func runCaseH(c Case, bound time.Duration, hist []Hist) result {
 	}
 	select {
 	case <-done:
+		res.ended = true
 		// the time between the cancellation and the return of the call itself (both taken on the monotonic clock,
 		// the second on the goroutine that made the call)
 		if at := cancelAt.Load(); at != 0 && returnAt.Load() > at {
@@ -778,6 +781,10 @@ func judge(check string, c Case, hist []Hist, o *h.Obs) *h.Fail {
 				return nil
 			}
 		}
+	}
+	if !ctxRef.InReplay() && (slowSites[c.Core+"|"+strings.Join(c.Wrappers, ">")] || slowSites["core:"+c.Core]) {
+		o.Excluded = "site already reported as running on and not returning after cancellation"
+		return nil
 	}
 	if !ctxRef.InReplay() {
 		for _, hi := range hist {
@@ -894,6 +901,18 @@ func judge(check string, c Case, hist []Hist, o *h.Obs) *h.Fail {
 	if len(hist) > 0 {
 		detail = "earlier runs: " + histNote(hist) + "\n" + detail
 	}
+	if r.runaway && !r.ended && !ctxRef.InReplay() {
+		// the script ran on AND the call did not return: every re-execution costs seconds (and the minimisation does not
+		// look at the clock inside one of its steps), so it is reported as found, unshrunk, once per site
+		f := h.Failf(sig("keeps-running"), "the script kept calling tick() after the context was cancelled (stopped by the harness after %d calls), and ExecuteContext did not return within %v of the cancellation\n%s", runawayLimit, bound+2*time.Second, detail)
+		ctxRef.Violation(check, f, saved(c))
+		leaked = true
+		slowSites[site] = true
+		if len(slowSites) >= 8 {
+			slowSites["core:"+c.Core] = true
+		}
+		return nil
+	}
 	if r.runaway {
 		return h.Failf(sig("keeps-running"), "the script kept calling tick() after the context was cancelled (stopped by the harness after %d calls)\n%s", runawayLimit, detail)
 	}
@@ -992,6 +1011,7 @@ func isSpin(core string) bool {
 var ctxRef *h.Ctx
 var hungCores = map[string]bool{}
 var hungPre = map[string]bool{}
+var slowSites = map[string]bool{} // sites (core|wrappers) whose run kept ticking and did not return: not executed again
 var leaked bool // a run of this process did not return after its cancellation
 
 // markHung keeps the process from paying for the same hang again: without go statements in front of the core the
